@@ -1,76 +1,258 @@
 """C15 - the per-peer outbound queue is a linearizable bounded two-class FIFO.
 
 spec/rpcqueue: RpcQueueSeq (sequential meaning), RpcQueue (lock/cond grain model, refinement and
-liveness), GenRpcQueueSeq (scenario generator), RpcQueueTrace (linearisation of real histories)."""
+liveness, single-line-slip variants that must fail), GenRpcQueueSeq (scenario generator: sequences and
+bursts), RpcQueueTrace (linearisation of real histories)."""
 import json, os, random
+import concurrent.futures as cf
 from .. import vlib
 
 LEVEL = "model_checking"
 FAMILY = "rpcqueue"
 
+ALL_PROPS = ["P_C15_Refines", "P_C15_Results", "P_C15_CancelledPopReturns", "P_C15_CloseReleasesAll",
+             "P_C15_BlockedPushResumes", "P_C15_BlockedPopResumes"]
+# small configurations of MCRpcQueue.tla: name -> (Cap, has pushers, has poppers)
+SMALL = {"SP1": (1, False, True), "SP2": (1, False, True), "SU1": (1, True, False), "SU3": (1, True, False),
+         "SB1": (2, True, True), "SPP": (2, True, True), "SA2": (1, True, True), "SUP": (1, True, True),
+         "SCL": (2, True, True)}
+# single-line slips of rpc_queue.go (RpcQueue.tla, Variant): (variant, small configuration, CanClose, I(nvariant) or
+# P(roperty), what must fail, which real-code scenario exposes it). "none" must pass on the same configuration.
+MUST_FAIL = [
+    ("afterfunc-signal", "SP2", False, "P", "P_C15_CancelledPopReturns", "Seq: pop(1), pop(2), cancel(2) (seeded a1)"),
+    ("push-if", "SA2", False, "I", "P_C15_Bounded", "Burst: blocked pusher, [pop, push] (seeded a2); Park push: pop1, push"),
+    ("popsig-transition", "SB1", False, "P", "P_C15_BlockedPushResumes", "Burst: cap 2 full, two blocked pushers, [pop, pop] (seeded b1)"),
+    ("pushsig-transition", "SPP", False, "P", "P_C15_BlockedPopResumes", "Burst: cap 2 empty, two blocked pops, [push, push]"),
+    ("popsig-none", "SUP", False, "P", "P_C15_BlockedPushResumes", "Seq: blocked pusher, pop"),
+    ("pushsig-none", "SUP", False, "P", "P_C15_BlockedPopResumes", "Seq: blocked pop, push"),
+    ("popsig-data", "SUP", False, "P", "P_C15_BlockedPushResumes", "Seq: blocked pusher, pop"),
+    ("pushsig-space", "SUP", False, "P", "P_C15_BlockedPopResumes", "Seq: blocked pop, push"),
+    ("close-nolock", "SP1", True, "P", "P_C15_CloseReleasesAll", "Park/Forced pop: close while Pop is between check and wait (seeded b2)"),
+    ("close-nolock", "SU1", True, "P", "P_C15_CloseReleasesAll", "Park/Forced push: close while a blocking push is between check and wait (seeded b2)"),
+    ("close-signal", "SP2", True, "P", "P_C15_CloseReleasesAll", "Seq: two blocked pops, close"),
+    ("close-signal", "SU3", True, "P", "P_C15_CloseReleasesAll", "Seq: two blocked pushers, close"),
+    ("close-nodata", "SP1", True, "P", "P_C15_CloseReleasesAll", "Seq: blocked pop, close"),
+    ("close-nospace", "SU1", True, "P", "P_C15_CloseReleasesAll", "Seq: blocked pusher, close"),
+    ("pop-norecheck", "SP1", True, "P", "P_C15_CloseReleasesAll", "Seq: blocked pop, close"),
+    ("push-norecheck", "SU1", True, "P", "P_C15_CloseReleasesAll", "Seq: blocked pusher, close"),
+    ("pop-if", "SP2", False, "P", "P_C15_Results", "Seq: pop(1), pop(2), cancel(2); Burst: blocked pop, [push, pop]"),
+    ("pop-ctxonce", "SP2", False, "P", "P_C15_CancelledPopReturns", "Seq: blocked pop, cancel"),
+    ("pop-normalfirst", "SCL", False, "P", "P_C15_Results", "Seq: push, urgent push, pop"),
+    ("len-normalonly", "SCL", False, "I", "P_C15_Bounded", "Seq: cap 1, urgent push twice"),
+]
+
+
+def small_cfg(variant, cfg, canclose, kind=None, prop=None):
+    cap, has_u, has_p = SMALL[cfg]
+    consts = {"Cap": cap}
+    for k in ("Pushers", "Poppers", "Script", "NPops", "CanCancel"):
+        consts[k] = "%s <- %s%s" % (k, cfg, k)
+    consts.update({"CanClose": canclose, "BroadcastUnderLock": True, "Variant": '"%s"' % variant})
+    if variant == "none":
+        # a property quantified over an empty set of processes is a tautology, which TLC refuses
+        props = [p for p in ALL_PROPS if not ((p == "P_C15_BlockedPushResumes" and not has_u) or
+                                              (p in ("P_C15_BlockedPopResumes", "P_C15_CancelledPopReturns") and not has_p))]
+        return vlib.cfg_text(constants=consts, invariants=["TypeOK", "P_C15_Bounded", "WaitSetsSound"], properties=props)
+    if kind == "I":
+        return vlib.cfg_text(constants=consts, invariants=[prop])
+    return vlib.cfg_text(constants=consts, properties=[prop])
+
+
+def model_level(ctx):
+    """Everything that is TLC on models alone (no real code): exhaustive MC of the model of the code as it stands,
+    the configurations that must fail, the scenario generators. Run concurrently."""
+    jobs = {}   # name -> (callable)
+    jobs["mc"] = lambda: vlib.run_tlc(ctx, FAMILY, "MCRpcQueue", "MCRpcQueue.cfg", timeout=600, name="mc", workers=4)
+    jobs["mc-bug"] = lambda: vlib.run_tlc(ctx, FAMILY, "MCRpcQueue", "MCRpcQueueBug.cfg", timeout=600, name="mc-bug", workers=2)
+    base = sorted({(c, cc) for (_, c, cc, _, _, _) in MUST_FAIL})
+    for (c, cc) in base:
+        jobs["ok-%s-%s" % (c, cc)] = (lambda c=c, cc=cc: vlib.run_tlc(
+            ctx, FAMILY, "MCRpcQueue", small_cfg("none", c, cc), timeout=300, name="ok-%s-%d" % (c, cc), workers=2))
+    for (v, c, cc, kind, prop, _) in MUST_FAIL:
+        jobs["mf-%s-%s" % (v, c)] = (lambda v=v, c=c, cc=cc, kind=kind, prop=prop: vlib.run_tlc(
+            ctx, FAMILY, "MCRpcQueue", small_cfg(v, c, cc, kind, prop), timeout=300, name="mf-%s-%s" % (v, c), workers=2))
+    # generators: plain sequences (one operation at a time) and sequences with bursts
+    if not ctx.thorough:
+        plan = [(1, 4), (2, 4), (1, 5)]
+        bplan = [(1, 4, (0, 1)), (2, 4, (0, 2)), (3, 4, (0, 3))]
+    else:
+        plan = [(1, 5), (2, 5), (3, 5), (1, 6), (2, 6)]
+        bplan = [(1, 5, (0, 1)), (2, 5, (0, 2)), (3, 5, (3,)), (2, 6, (2,))]
+    for cap, L in plan:
+        cfg = vlib.cfg_text(constants={"Cap": cap, "L": L, "MaxBlocked": 2, "MaxBurst": 1, "Fills": {0}}, invariants=["Emit"])
+        jobs["gen-c%d-l%d" % (cap, L)] = (lambda cfg=cfg, cap=cap, L=L: vlib.run_tlc(
+            ctx, FAMILY, "GenRpcQueueSeq", cfg, timeout=900, name="gen-c%d-l%d" % (cap, L), heap="8g", workers=4))
+    for cap, L, fills in bplan:
+        cfg = vlib.cfg_text(constants={"Cap": cap, "L": L, "MaxBlocked": 2, "MaxBurst": 3, "Fills": set(fills)}, invariants=["Emit"])
+        jobs["bgen-c%d-l%d" % (cap, L)] = (lambda cfg=cfg, cap=cap, L=L: vlib.run_tlc(
+            ctx, FAMILY, "GenRpcQueueSeq", cfg, timeout=900, name="bgen-c%d-l%d" % (cap, L), heap="8g", workers=4))
+    res = {}
+    with cf.ThreadPoolExecutor(max_workers=6) as ex:
+        futs = {ex.submit(f): k for k, f in jobs.items()}
+        for fu in cf.as_completed(futs):
+            res[futs[fu]] = fu.result()
+    return res, base, plan, bplan
+
+
+def dedupe(scns):
+    """Scenarios printed by the generator, deduplicated by input (tags of duplicates are merged)."""
+    by = {}
+    for s in scns:
+        k = json.dumps([s["cap"], s.get("fill", 0), s["ops"]], sort_keys=True)
+        if k in by:
+            by[k]["tags"] = sorted(set(by[k]["tags"]) | set(s.get("tags", [])))
+        else:
+            s["tags"] = sorted(s.get("tags", []))
+            by[k] = s
+    return [by[k] for k in sorted(by)]
+
+
+def burst_obligations(sc):
+    """Which burst obligations a recorded scenario really met: the operations ran back to back (no line of another
+    goroutine between them) while enough calls were blocked."""
+    got = set()
+    cap = sc[0].get("cap", 1)
+    out_push, out_pop, calls = set(), set(), {}
+    seq = [e for e in sc if e.get("e") in ("call", "ret", "quiet")]
+    for i, e in enumerate(seq):
+        if e["e"] == "call":
+            calls[e["id"]] = e
+            # a pair of calls, each returning on the very next line, with nothing in between
+            if i + 3 < len(seq) and seq[i + 1]["e"] == "ret" and seq[i + 1]["id"] == e["id"] and \
+               seq[i + 2]["e"] == "call" and seq[i + 3]["e"] == "ret" and seq[i + 3]["id"] == seq[i + 2]["id"]:
+                a, ra, b, rb = e, seq[i + 1]["res"], seq[i + 2], seq[i + 3]["res"]
+                item = lambda r: str(r).startswith("i")
+                if a["op"] == "pop" and b["op"] == "pop" and item(ra) and item(rb) and len(out_push) >= 2 and cap >= 2:
+                    got.add("burst-pop-pop-2-blocked-pushers")
+                if a["op"] == "push" and b["op"] == "push" and ra == "ok" and rb == "ok" and len(out_pop) >= 2 and cap >= 2:
+                    got.add("burst-push-push-2-blocked-pops")
+                if a["op"] == "pop" and b["op"] == "push" and item(ra) and rb == "ok" and len(out_push) >= 1:
+                    got.add("burst-pop-push-blocked-pusher")
+                if a["op"] == "push" and b["op"] == "pop" and ra == "ok" and item(rb) and len(out_pop) >= 1:
+                    got.add("burst-push-pop-blocked-pop")
+        elif e["e"] == "quiet":
+            # who is blocked at quiescence stays "outstanding" for the operations that follow
+            out_push = {i_ for i_ in e["blocked"] if calls.get(i_, {}).get("op") == "push"}
+            out_pop = {i_ for i_ in e["blocked"] if calls.get(i_, {}).get("op") == "pop"}
+        elif e["e"] == "ret":
+            out_push.discard(e["id"]); out_pop.discard(e["id"])
+    return got
+
+
+def park_obligations(sc):
+    """Which calls were made while a call was parked at a schedule point (between the notes parked and release)."""
+    got, hook = set(), None
+    for e in sc:
+        if e.get("e") == "note" and e.get("k") == "parked":
+            hook = "pop" if e["hook"].startswith("rpcqueue.pop") else "push"
+        elif e.get("e") == "note" and e.get("k") == "release":
+            hook = None
+        elif hook and e.get("e") == "call" and e.get("op") in ("close", "pop", "push"):
+            got.add("%s-while-%s-parked" % (e["op"], hook))
+        elif hook and e.get("e") == "cancel":
+            got.add("cancel-while-%s-parked" % hook)
+    return got
+
 
 def run(ctx):
     samples, states, transitions = [], 0, 0
-    # 1. model level: the lock-grain model of the (repaired) code refines the sequential spec and is live
-    mc = vlib.run_tlc(ctx, FAMILY, "MCRpcQueue", "MCRpcQueue.cfg", timeout=600, name="mc")
-    vlib.require_mc_ok(ctx, mc, "MCRpcQueue (BroadcastUnderLock=TRUE)")
+    # 1. model level
+    res, base, plan, bplan = model_level(ctx)
+    mc = res["mc"]
+    vlib.require_mc_ok(ctx, mc, "MCRpcQueue (the code as it stands)")
     states += mc.distinct; transitions += mc.generated
     # non-vacuity: with the AfterFunc broadcast outside the lock (the code as found, D11) liveness must fail
-    bug = vlib.run_tlc(ctx, FAMILY, "MCRpcQueue", "MCRpcQueueBug.cfg", timeout=600, name="mc-bug")
-    vlib.require_mc_fails(ctx, bug, "MCRpcQueue (BroadcastUnderLock=FALSE)", "P_C15_CancelledPopReturns")
+    vlib.require_mc_fails(ctx, res["mc-bug"], "MCRpcQueue (BroadcastUnderLock=FALSE)", "P_C15_CancelledPopReturns")
+    # every single-line slip fails its property on a small configuration on which the code as it stands passes
+    for (c, cc) in base:
+        r = res["ok-%s-%s" % (c, cc)]
+        vlib.require_mc_ok(ctx, r, "MCRpcQueue %s (Variant none)" % c)
+        states += r.distinct; transitions += r.generated
+    for (v, c, cc, kind, prop, _) in MUST_FAIL:
+        vlib.require_mc_fails(ctx, res["mf-%s-%s" % (v, c)], "MCRpcQueue %s (Variant %s)" % (c, v), prop)
     if ctx.thorough:
-        mc2 = vlib.run_tlc(ctx, FAMILY, "MCRpcQueue", "MCRpcQueue2.cfg", timeout=1500, name="mc2", workers=vlib.NCPU)
+        mc2 = vlib.run_tlc(ctx, FAMILY, "MCRpcQueue", "MCRpcQueue2.cfg", timeout=900, name="mc2", workers=min(vlib.NCPU, 8))
         vlib.require_mc_ok(ctx, mc2, "MCRpcQueue2 (cap 2, 3 pushers)", allow_timeout=True)
         states += mc2.distinct; transitions += mc2.generated
 
-    # 2. generate sequential scenarios with TLC
-    plan = [(1, 4), (2, 4), (1, 5)] if not ctx.thorough else [(1, 5), (2, 5), (3, 5), (1, 6), (2, 6)]
-    scns = []
-    for cap, L in plan:
-        cfg = vlib.cfg_text(constants={"Cap": cap, "L": L, "MaxBlocked": 2}, invariants=["Emit"])
-        g = vlib.run_tlc(ctx, FAMILY, "GenRpcQueueSeq", cfg, timeout=900, name="gen-c%d-l%d" % (cap, L), heap="8g")
-        vlib.require_mc_ok(ctx, g, "GenRpcQueueSeq cap=%d L=%d" % (cap, L))
-        got = g.printed("SCN")
-        if not got:
-            raise vlib.Inconclusive("generator emitted nothing")
-        scns += got
-        states += g.distinct; transitions += g.generated
-    # dedupe, cap the volume for the quick tier by seeded sampling
-    seen, uniq = set(), []
-    for s in scns:
-        k = json.dumps(s, sort_keys=True)
-        if k not in seen:
-            seen.add(k); uniq.append(s)
-    limit = 12000 if not ctx.thorough else 150000
+    # 2. scenarios generated by TLC
+    def collect(prefix, pl):
+        nonlocal states, transitions
+        got = []
+        for item in pl:
+            cap, L = item[0], item[1]
+            g = res["%s-c%d-l%d" % (prefix, cap, L)]
+            vlib.require_mc_ok(ctx, g, "GenRpcQueueSeq %s cap=%d L=%d" % (prefix, cap, L))
+            s = g.printed("SCN")
+            if not s:
+                raise vlib.Inconclusive("generator %s cap=%d L=%d emitted nothing" % (prefix, cap, L))
+            got += s
+            states += g.distinct; transitions += g.generated
+        return dedupe(got)
+    uniq = collect("gen", plan)
+    limit = 12000 if not ctx.thorough else 100000
     exhaustive = len(uniq) <= limit
     if not exhaustive:
         random.Random(ctx.seed).shuffle(uniq)
         uniq = uniq[:limit]
     scn_file = os.path.join(ctx.work, "scenarios.ndjson")
     vlib.write_ndjson(scn_file, uniq)
-    ctx.log("generated %d sequential scenarios (exhaustive=%s)" % (len(uniq), exhaustive))
+    # bursts: everything the model tags as one of the wake-up patterns is kept, the rest is sampled by seed
+    bursts = collect("bgen", bplan)
+    blimit = 12000 if not ctx.thorough else 50000
+    bexhaustive = len(bursts) <= blimit
+    if not bexhaustive:
+        rnd = random.Random(ctx.seed)
+        tagged = [s for s in bursts if s["tags"]]
+        rest = [s for s in bursts if not s["tags"]]
+        rnd.shuffle(tagged); rnd.shuffle(rest)
+        tagged = tagged[:blimit // 2]
+        bursts = tagged + rest[:blimit - len(tagged)]
+    burst_file = os.path.join(ctx.work, "bursts.ndjson")
+    vlib.write_ndjson(burst_file, bursts)
+    ctx.log("generated %d sequential scenarios (exhaustive=%s), %d with bursts (exhaustive=%s, %d tagged)" % (
+        len(uniq), exhaustive, len(bursts), bexhaustive, sum(1 for s in bursts if s["tags"])))
 
-    # 3. replay on the real queue; 4. validate by TLC
-    traces = []
-    for test, need_in in (("TestC15Seq", True), ("TestC15Forced", False), ("TestC15Stress", False), ("TestC15Node", False)):
+    # 3. replay on the real queue
+    traces, dead, notes = [], [], {}
+    for test, inp in (("TestC15Seq", scn_file), ("TestC15Burst", burst_file), ("TestC15Park", None), ("TestC15Forced", None),
+                      ("TestC15Stress", None), ("TestC15Node", None)):
         outp = os.path.join(ctx.work, test + ".ndjson")
         env = {"VERIF_OUT": outp, "VERIF_SINK": os.path.join(ctx.work, test + ".sink.ndjson")}
-        if need_in:
-            env["VERIF_IN"] = scn_file
+        if inp:
+            env["VERIF_IN"] = inp
         r = vlib.run_go(ctx, "./drivers/c15/", "^%s$" % test, env=env, timeout=1500)
         if not os.path.exists(outp) or os.path.getsize(outp) == 0:
             raise vlib.Inconclusive("driver %s produced no trace (rc=%s, see %s)" % (test, r["rc"], r["log"]))
         if r["rc"] != 0:
-            raise vlib.Inconclusive("driver %s failed (rc=%s, see %s)" % (test, r["rc"], r["log"]))
-        lines = [l for l in vlib.read_ndjson(outp) if l.get("e") != "quiet-soft"]
+            # A driver stops when calls stay blocked whatever it tries (it cannot leave its synctest bubble then); what it
+            # recorded up to there is judged like any other trace, and only if that shows nothing is the run inconclusive.
+            dead.append("driver %s failed (rc=%s, see %s)" % (test, r["rc"], r["log"]))
+        try:
+            raw = vlib.read_ndjson(outp)
+        except ValueError:
+            with open(outp) as f:
+                good = []
+                for line in f:
+                    try:
+                        good.append(json.loads(line))
+                    except ValueError:
+                        break
+            raw = good
+        full = vlib.split_scenarios(raw)
+        for e in raw:
+            if e.get("e") == "note" and e.get("k") == "nohook":
+                notes[e["hook"]] = notes.get(e["hook"], 0) + 1
+        lines = [l for l in raw if l.get("e") not in ("quiet-soft", "note")]
         s = vlib.split_scenarios(lines)
-        traces.append((test, s))
+        traces.append((test, s, full))
         ctx.log("%s: %d scenarios, %d events" % (test, len(s), len(lines)))
 
-    total, nontrivial, hits = 0, set(), {}
-    for test, s in traces:
+    # 4. validate by TLC
+    total, nontrivial, hits, obl = 0, set(), {}, {}
+    for test, s, full in traces:
         rej, acc, st = vlib.validate_by_cursor(ctx, FAMILY, "RpcQueueTrace", "RpcQueueTrace.cfg", s,
-                                               chunk=1500 if test == "TestC15Seq" else 400, name="tv-" + test)
+                                               chunk=1500 if test in ("TestC15Seq", "TestC15Burst") else 400, name="tv-" + test)
         states += st
         total += len(s)
         for sc in s:
@@ -82,6 +264,14 @@ def run(ctx):
                 if e.get("e") == "ret":
                     key = "item" if str(e["res"]).startswith("i") else e["res"]
                     hits[key] = hits.get(key, 0) + 1
+        if test == "TestC15Burst":
+            for sc in s:
+                for o in burst_obligations(sc):
+                    obl[o] = obl.get(o, 0) + 1
+        if test in ("TestC15Park", "TestC15Forced"):
+            for sc in full:
+                for o in park_obligations(sc):
+                    obl[o] = obl.get(o, 0) + 1
         if s:
             samples.append({"driver": test, "trace": s[len(s) // 2][:14]})
         for (i, k, inv) in rej:
@@ -92,23 +282,39 @@ def run(ctx):
             pred = "P_C15_Progress" if bad and bad.get("e") == "quiet" else "P_C15_Linearizable"
             sig = {"driver": test, "line": bad.get("e") if bad else None,
                    "kind": "pop-blocked-after-cancel" if lost else ("blocked-set" if pred == "P_C15_Progress" else "result"),
-                   "forced": test == "TestC15Forced"}
+                   "forced": test in ("TestC15Forced", "TestC15Park")}
             vlib.add_violation(ctx, pred, sig,
                                "history not explainable by the sequential queue at line %d of a %s scenario: %s" % (k, test, json.dumps(bad)),
                                {"driver": test, "scenario": sc, "failing_line": k})
-    # coverage obligations (DESIGN C15): every result kind observed on the real queue
+    if dead and not ctx.violations:
+        raise vlib.Inconclusive("; ".join(dead))
+    for d in dead:
+        ctx.notes.append(d + " - its trace up to there was judged")
+    # coverage obligations (DESIGN C15): every result kind observed on the real queue; the wake-up patterns really ran
     need = ["ok", "full", "pushclosed", "closed", "cancelled", "item"]
     missing = [n for n in need if not hits.get(n)]
+    need_obl = ["burst-pop-pop-2-blocked-pushers", "burst-push-push-2-blocked-pops", "burst-pop-push-blocked-pusher",
+                "burst-push-pop-blocked-pop",
+                "close-while-pop-parked", "cancel-while-pop-parked", "push-while-pop-parked",
+                "close-while-push-parked", "pop-while-push-parked", "push-while-push-parked"]
+    missing += [n for n in need_obl if not obl.get(n)]
     if missing and not ctx.violations:
-        raise vlib.Inconclusive("coverage obligation not met: results never observed: %s" % missing)
+        why = ""
+        if notes:
+            why = " (schedule point(s) %s never fire in this tree: the hook line is missing)" % sorted(notes)
+        raise vlib.Inconclusive("coverage obligation not met: never observed: %s%s" % (missing, why))
     cov = {"states": states, "transitions": transitions, "traces_validated_against_impl": total,
            "samples": samples, "evaluations": total, "distinct_nontrivial": len(nontrivial),
-           "rule": "scenario = operation sequence emitted by GenRpcQueueSeq (all sequences up to the bound; sampled by seed above %d) "
-                   "or forced/stress history; non-trivial = at least two different result kinds or a blocked call; distinct by call sequence" % limit,
-           "exhaustive": exhaustive, "result_hits": hits,
-           "mc": {"MCRpcQueue": [mc.distinct, mc.generated], "bug_config_fails_liveness": True}}
+           "rule": "scenario = operation sequence emitted by GenRpcQueueSeq (all sequences up to the bound, with and without bursts; "
+                   "sampled by seed above %d / %d) or forced/parked/stress history; non-trivial = at least two different result kinds "
+                   "or a blocked call; distinct by call sequence" % (limit, blimit),
+           "exhaustive": exhaustive and bexhaustive, "result_hits": hits, "obligation_hits": obl,
+           "mc": {"MCRpcQueue": [mc.distinct, mc.generated], "bug_config_fails_liveness": True,
+                  "must_fail_variants": ["%s on %s: %s" % (v, c, p) for (v, c, _, _, p, _) in MUST_FAIL]}}
     return vlib.finish(ctx, LEVEL, cov, [
         "sync.Mutex / sync.Cond / context.AfterFunc behave as modelled (Wait atomically enqueues and unlocks; Signal wakes one waiter)",
-        "forced interleaving relies on 2 ms of real time for the AfterFunc goroutine to run while Pop is parked",
+        "bursts and parked scenarios rely on GOMAXPROCS(1): a goroutine runs until it blocks, a signalled waiter is only made runnable "
+        "(a burst the runtime preempts all the same is still judged, it just does not count for the coverage obligation)",
+        "real-time forced interleavings rely on 1-2 ms of real time for the other goroutines to reach the mutex while a call is parked",
         "stress histories sample the runtime's schedules; the model covers all of them",
         "in-node part (TestC15Node): pushes are taken from the library's SendRPC/DropRPC trace calls at the push site, pops from frame arrival at a fake peer; pop k is assumed called after pop k-1 returned (the writer loop is sequential)"])
